@@ -162,7 +162,18 @@ def _short_trait(tr):
     return head.split('::')[-1] + tail
 
 
+_PC_CACHE = {}
+
+
 def parse_callee(callee):
+    r = _PC_CACHE.get(callee)
+    if r is None:
+        r = _parse_callee(callee)
+        _PC_CACHE[callee] = r
+    return r
+
+
+def _parse_callee(callee):
     """split `<T as Trait<..>>::method::<G>` / `Type::<G>::method::<H>` into
     (self_ty, trait, method, norm, full).  `norm` is the key library models match on."""
     self_ty = trait = None
@@ -213,56 +224,83 @@ class Interp:
         self.max_steps = self.opts.get('max_steps', 2000000)
         self.notes = []
         self.hint_eqs = None
+        self.hint_values = None
+        self.quick_ms = self.opts.get('quick_fork_ms', 400)
+        self.lazy = self.opts.get('lazy_forks', False)
+        self.decided = {}
         self.L = layouts()
 
     # ------------------------------------------------------------ forking
+    def _commit(self, cond, d, record=True):
+        self.ctx.add(cond if d else z3.Not(cond))
+        self.decided[cond.get_id()] = (d, cond)
+        if record:
+            self.decisions.append(d)
+        self.pos += 1
+        return d
+
     def fork(self, cond):
         cond = simp(cond)
         if isinstance(cond, bool):
             return cond
         if self.pos < len(self.decisions):
-            d = self.decisions[self.pos]
-            self.pos += 1
-            self.ctx.add(cond if d else z3.Not(cond))
-            return d
+            return self._commit(cond, self.decisions[self.pos], record=False)
         dd = self.ctx.decide(cond)
+        if dd is None:
+            # the same condition was already decided on this path (e.g. quote vs execution)
+            prev = self.decided.get(cond.get_id())
+            if prev is not None and prev[1].eq(cond):
+                dd = prev[0]
         if dd is not None:
-            self.decisions.append(dd)
-            self.pos += 1
-            self.ctx.add(cond if dd else z3.Not(cond))
-            return dd
+            return self._commit(cond, dd)
+        w = self.ctx.weval(cond)
+        if w is True or w is False:
+            # the witness satisfies one side: that side is feasible; the other gets one short query
+            # (or none at all in lazy mode: it is explored and judged by the checks made on it)
+            if self.lazy:
+                other = 'unknown'
+                self.stats['lazy_forks'] = self.stats.get('lazy_forks', 0) + 1
+            else:
+                other = self._feasible(z3.Not(cond) if w else cond, quick=True)
+            if other != 'unsat':
+                self.alternatives.append(self.decisions[:self.pos] + [not w])
+            return self._commit(cond, w)
+        if self.lazy:
+            self.stats['lazy_forks'] = self.stats.get('lazy_forks', 0) + 1
+            self.alternatives.append(self.decisions[:self.pos] + [False])
+            return self._commit(cond, True)
         rt = self._feasible(cond)
         if rt == 'unsat':
-            d = False
-            self.decisions.append(False)
-            self.pos += 1
-            self.ctx.add(z3.Not(cond))
-            return False
+            return self._commit(cond, False)
+        mt = self.ctx.last_solver.model() if (rt == 'sat' and self.ctx.last_solver is not None) else None
         rf = self._feasible(z3.Not(cond))
         if rf == 'unsat':
-            self.decisions.append(True)
-            self.pos += 1
-            self.ctx.add(cond)
-            return True
+            if mt is not None:
+                self.ctx.witness_from_model(mt)
+            return self._commit(cond, True)
         self.alternatives.append(self.decisions[:self.pos] + [False])
-        self.decisions.append(True)
-        self.pos += 1
-        self.ctx.add(cond)
-        return True
+        if mt is not None:
+            self.ctx.witness_from_model(mt)
+        return self._commit(cond, True)
 
-    def _feasible(self, cond):
-        """'sat' | 'unsat' | 'unknown'; tries the obligation's hint assignment first (cheap witness)"""
-        h = self.hint_eqs
-        if h is not None:
-            if self.ctx.check(z3.And(cond, h)) == 'sat':
-                self.stats['hint_sat'] = self.stats.get('hint_sat', 0) + 1
-                return 'sat'
-        return self.ctx.check(cond)
+    def _feasible(self, cond, quick=False):
+        """'sat' | 'unsat' | 'unknown'.  A concrete witness of the current pc (seeded by the obligation's
+        hint, refreshed from solver models) answers the side it satisfies without a solver call."""
+        w = self.ctx.weval(cond)
+        if w is True:
+            self.stats['witness_sat'] = self.stats.get('witness_sat', 0) + 1
+            return 'sat'
+        if quick:
+            self.ctx.set_timeout(self.quick_ms)
+        r = self.ctx.check(cond)
+        if quick:
+            self.ctx.set_timeout(self.ctx.timeout_ms)
+        return r
 
     def set_hint(self, values):
-        """concrete witness values for (some) inputs, used only to speed up feasibility queries"""
-        eqs = [z3.Int(k) == v if not isinstance(v, bool) else (z3.Bool(k) if v else z3.Not(z3.Bool(k))) for k, v in values.items()]
-        self.hint_eqs = z3.And(*eqs) if eqs else None
+        """concrete witness values for the inputs, used only to speed up feasibility queries"""
+        self.hint_values = dict(values)
+        self.ctx.set_witness(self.hint_values)
 
     def choose(self, n, label=''):
         """nondeterministic choice among n alternatives (all explored)"""
@@ -290,6 +328,8 @@ class Interp:
         if bits is not None:
             hi = (1 << bits) - 1
         self.ctx.set_bounds(v, lo, hi)
+        if self.ctx.wit is not None and name not in self.ctx.wit:
+            self.ctx.wit_define(v, lo if lo is not None else 0)
         if lo is not None:
             self.ctx.add(v >= lo)
         if hi is not None:
@@ -299,6 +339,9 @@ class Interp:
     def fresh_tmp(self, base, lo=0, hi=None):
         v = self.ctx.fresh(base)
         self.ctx.set_bounds(v, lo, hi)
+        self.ctx.wit_define(v, lo if lo is not None else 0)
+        if self.ctx.wit is not None and name not in self.ctx.wit:
+            self.ctx.wit_define(v, lo if lo is not None else 0)
         if lo is not None:
             self.ctx.add(v >= lo)
         if hi is not None:
@@ -342,6 +385,11 @@ class Interp:
     def addr_valid(self, s):
         """opaque predicate: is this string a valid bech32 address"""
         from .strings import code_of
+        if isinstance(s, str):
+            v = z3.Bool('addr_valid:' + s)
+            if self.ctx.wit is not None and ('addr_valid:' + s) not in self.ctx.wit:
+                self.ctx.wit_define(v, not s.startswith('not-'))
+            return v
         f = self.ctx.uf.get('addr_valid')
         if f is None:
             f = z3.Function('addr_valid', z3.IntSort(), z3.BoolSort())
